@@ -274,16 +274,6 @@ func parseIptables(line string, ver int, sets map[string]int) (string, error) {
 					return "", fmt.Errorf("unknown multiport option %q", d)
 				}
 				txt := t.next()
-				slots := 0
-				for _, f := range strings.Split(txt, ",") {
-					slots++
-					if strings.Contains(f, ":") {
-						slots++
-					}
-				}
-				if slots > 15 {
-					return "", fmt.Errorf("multiport with %d slots (kernel limit 15)", slots)
-				}
 				pl, err := parsePortList(txt, ":")
 				if err != nil {
 					return "", err
